@@ -1,0 +1,86 @@
+//go:build verif
+
+package fasthttp
+
+import (
+	"net"
+	"time"
+)
+
+// Thin exports for the /verif correspondence harness (property C13, workerpool.go).
+
+// VerifErrHijacked is the sentinel a WorkerFunc returns for a hijacked connection.
+var VerifErrHijacked = errHijacked
+
+// VerifWorkerChan is an opaque handle on a worker's channel.
+type VerifWorkerChan = workerChan
+
+// VerifWorkerPool wraps the unexported workerPool.
+type VerifWorkerPool struct{ wp *workerPool }
+
+// VerifSetWorkerChanCap overrides workerChanCap (0 when GOMAXPROCS=1, else 1) and returns the old value.
+// Pools created afterwards allocate their worker channels with the new capacity.
+func VerifSetWorkerChanCap(n int) int {
+	old := workerChanCap
+	workerChanCap = n
+	return old
+}
+
+func VerifNewWorkerPool(f ServeHandler, maxWorkers int, maxIdle time.Duration, connState func(net.Conn, ConnState), lg Logger) *VerifWorkerPool {
+	return &VerifWorkerPool{wp: &workerPool{
+		WorkerFunc:            f,
+		MaxWorkersCount:       maxWorkers,
+		MaxIdleWorkerDuration: maxIdle,
+		Logger:                lg,
+		connState:             connState,
+	}}
+}
+
+func (v *VerifWorkerPool) Start()                { v.wp.Start() }
+func (v *VerifWorkerPool) Stop()                 { v.wp.Stop() }
+func (v *VerifWorkerPool) Serve(c net.Conn) bool { return v.wp.Serve(c) }
+
+// StartNoCleaner does what Start does except launching the periodic cleaner goroutine,
+// so that a sequential replay decides itself when clean runs.
+func (v *VerifWorkerPool) StartNoCleaner() {
+	wp := v.wp
+	wp.stopCh = make(chan struct{})
+	wp.workerChanPool.New = func() any {
+		return &workerChan{ch: make(chan net.Conn, workerChanCap)}
+	}
+}
+
+func (v *VerifWorkerPool) GetCh() *VerifWorkerChan { return v.wp.getCh() }
+
+// VerifSendConn is the second half of Serve: ch.ch <- c.
+func VerifSendConn(ch *VerifWorkerChan, c net.Conn) { ch.ch <- c }
+
+// Clean runs one pass of the idle-worker cleaner.
+func (v *VerifWorkerPool) Clean() {
+	var scratch []*workerChan
+	v.wp.clean(&scratch)
+}
+
+// Snapshot reads ready, workersCount and mustStop under wp.lock.
+func (v *VerifWorkerPool) Snapshot() (ready []*VerifWorkerChan, workersCount int, mustStop bool) {
+	v.wp.lock.Lock()
+	ready = append(ready, v.wp.ready...)
+	workersCount = v.wp.workersCount
+	mustStop = v.wp.mustStop
+	v.wp.lock.Unlock()
+	return ready, workersCount, mustStop
+}
+
+// AgeReady moves lastUseTime of ready[i] (every entry except `except` when i < 0) back by d:
+// the harness' way of letting logical time pass without sleeping.
+func (v *VerifWorkerPool) AgeReady(i int, d time.Duration, except *VerifWorkerChan) {
+	v.wp.lock.Lock()
+	for j, ch := range v.wp.ready {
+		if (i < 0 && ch != except) || j == i {
+			ch.lastUseTime = ch.lastUseTime.Add(-d)
+		}
+	}
+	v.wp.lock.Unlock()
+}
+
+func (v *VerifWorkerPool) EffectiveMaxIdle() time.Duration { return v.wp.getMaxIdleWorkerDuration() }
